@@ -18,7 +18,11 @@ pub const STRINGS_SMALL: &[&str] = &["", "a", "abcabc", "héllo", "a😀b", " 12
 
 pub fn numbers() -> Vec<Expr> {
     let mut v: Vec<Expr> = vec![];
-    for n in ["0", "1", "0.5", "1.5", "2.5", "3", "4", "9007199254740992", "1000000000000000000000", "0.0000001", "123456789012", ".5", "5.", "0.1", "2"] {
+    for n in [
+        "0", "1", "0.5", "1.5", "2.5", "3", "4", "9007199254740992", "1000000000000000000000", "0.0000001", "123456789012", ".5", "5.", "0.1", "2",
+        // where x + 0.5 is not exact: the largest number below one half, odd integers above 2^52, the neighbours of a tie
+        "0.49999999999999994", "4503599627370497", "0.5000000000000001", "2.4999999999999996", "1.4999999999999998",
+    ] {
         v.push(num(n));
         if n != ".5" && n != "5." && n != "2" {
             v.push(Expr::Neg(Box::new(num(n))));
@@ -399,7 +403,7 @@ impl Check for C09C {
     fn meta(&self) -> Meta {
         Meta {
             rule: "full products of the core functions and operators with argument tuples from a string pool (empty, white space, ASCII, 2-/3-/4-byte characters, numeric-looking in every lexical form incl. padded, signed, exponent, hex, Infinity, NaN) and a number pool (+-0, halves, integers, 2^53, 1e21, 1e-7, 0.1+0.2, NaN, +-Infinity, spelled as literals or constant expressions) and booleans: every unary function over every value; every binary string function over all string pairs; concat/translate over all triples of a sub-pool; substring over string x start x length; the five arithmetic operators over all number pairs plus string/boolean coercion; the six comparison operators over all value pairs of every type combination; and/or; sum/count/number/string/comparisons over five node-sets with numeric-looking text; every function one argument below and above its arity. Each expression is rendered from its AST, evaluated by xml_xpath::query and by the reference evaluator (mc/src/model/xpath.rs); values compare exactly (numbers bitwise, NaN canonical). Non-trivial = the implementation returned a value.",
-            bounds_quick: "35 strings (7 with white space that is not XML white space), 33 numbers, 2 booleans; comparison pool 30 values; substring over 8 strings x 16 x 16",
+            bounds_quick: "35 strings (7 with white space that is not XML white space), 43 numbers (incl. the values at which x + 0.5 is inexact), 2 booleans; comparison pool 30 values; substring over 8 strings x 16 x 16",
             bounds_thorough: "as quick, plus comparisons and and/or over all pairs of the 70 values, substring over 35 strings x 33 starts x 16 lengths and 8 strings x 33 x 33, every composition of two unary functions over every value, translate / concat over 35 x 35 x 8 strings, every expression with two arithmetic operators (both groupings) over 16^3 numbers, comparisons of comparisons, string functions with number / boolean arguments",
             assumptions: &["trusts the reference core library (DESIGN.md Appendix C)"],
             unbounded_total: false,
